@@ -678,9 +678,22 @@ def expand_table_get(tree, known_globals, known_classattrs):
             if _clash(set().union(*[_write_roots(r) for r in use]), _read_roots(subj)):
                 continue
             arms = []
-            for k, c in list(zip(tab.keys, tab.values)) + [(None, ast.Constant(value=None))]:
+            groups = []      # keys with the same value share an arm: [(value, [keys])] in first-appearance order
+            for k, c in zip(tab.keys, tab.values):
+                for g in groups:
+                    if ast.dump(g[0]) == ast.dump(c):
+                        g[1].append(k)
+                        break
+                else:
+                    groups.append((c, [k]))
+            for c, ks in groups + [(ast.Constant(value=None), None)]:
                 body = _ConstFold().fold_block([_Subst({v: c}).visit(copy.deepcopy(r)) for r in use]) or [ast.Pass()]
-                test = ast.Compare(left=copy.deepcopy(subj), ops=[ast.Eq()], comparators=[copy.deepcopy(k)]) if k is not None else None
+                if ks is None:
+                    test = None
+                elif len(ks) == 1:
+                    test = ast.Compare(left=copy.deepcopy(subj), ops=[ast.Eq()], comparators=[copy.deepcopy(ks[0])])
+                else:
+                    test = ast.Compare(left=copy.deepcopy(subj), ops=[ast.In()], comparators=[ast.Tuple(elts=[copy.deepcopy(k) for k in ks], ctx=ast.Load())])
                 arms.append((test, body))
             chain = arms[-1][1]
             for test, body in reversed(arms[:-1]):
